@@ -50,6 +50,10 @@ K17 = [
         "mod.py": "class Kls:\n    {0} = 0\n    def __init__(self):\n        self.{0} = 1\n        self.{1} = 2\n    def total(self):\n        return self.{0} + self.{1}\n",
         "main.py": "from mod import Kls\n{2} = Kls()\nprint({2}.{0} + {2}.{1}, {2}.total())\n"}),
      lambda files, names: dict(api="encapsulate_field", path="mod.py", offset=_off(files, "mod.py", "self.", 0, 5))),
+    (Skeleton("f07_encapsulate_multiline_writes", {
+        "mod.py": "class Kls:\n    def __init__(self, {0}):\n        self.{1} = {0}\n    def reset(self):\n        self.{1} = (\n            0\n        )\n",
+        "main.py": "from mod import Kls\n{2} = Kls(5)\n{2}.{1} = (\n    {2}.{1} * 10\n    + 7\n)\nprint({2}.{1})\n{2}.{1} += sum([\n    1,\n    2,\n])\nprint({2}.{1})\n{2}.reset()\nprint({2}.{1})\n"}),
+     lambda files, names: dict(api="encapsulate_field", path="mod.py", offset=_off(files, "mod.py", "self.", 0, 5))),
 ]
 
 
